@@ -1,8 +1,8 @@
 /-
 C05, parser = specification: trees and paths.
 
-* `subOk` / `tyOk`  — the types the simulation is proved for (decidable): arrays of unknown bound only as the declared type itself,
-                       no flexible array members, every union has a named member.
+* `subOk` / `tyOk`  — (Spec/InitSpec.lean) the types the simulation is proved for (decidable): arrays of unknown bound only as
+                       the declared type itself, no flexible array members, every union has a named member.
 * `shaped ty init`  — the tree has the skeleton of the type (what `new_initializer` allocates and both sides preserve); a union node
                        without chosen member has no initialised child.
 * `setAtM obj p v`  — replace the subobject at path `p` by `v`, marking every union passed through as initialised through that
@@ -13,23 +13,6 @@ import ChibiVerif.Spec.InitSpec
 
 namespace ChibiVerif.InitSpec
 open ChibiVerif.Init
-
-mutual
-  def subOk : Ty → Bool
-    | .scalar _ _ => true
-    | .array e _ => subOk e
-    | .inc _ => false
-    | .struct ms _ fl => !fl && subOkMs ms
-    | .union ms _ fl => !fl && subOkMs ms && (nextNamed ms ms.length 0).isSome
-  def subOkMs : Members → Bool
-    | [] => true
-    | (_, t) :: r => subOk t && subOkMs r
-end
-
-/-- the declared types covered: no flexible array member, an array of unknown bound only outermost, unions have a named member -/
-def tyOk : Ty → Bool
-  | .inc e => subOk e
-  | t => subOk t
 
 mutual
   def shaped : Ty → Init → Bool
